@@ -30,7 +30,7 @@ ASSUMPTIONS = [
 REQUIRE = {
     "monitors": {"NLL == formula": 20, "NLL independent of batch size": 20, "value consistent across entry points": 20,
                  "invariant under common rescaling": 5, "CombineFCN == sum of parts": 3, "file loader NLL == formula": 2,
-                 "gaussian constraint term": 3},
+                 "gaussian constraint term": 3, "BaseModel.nll on raw weights == formula": 2},
     "cover": {"model": ["default", "extended", "cfit", "cfit_cached", "cfit_extended", "cached_int", "cached_amp", "simple"],
               "phsp_weights": ["ones", "positive", "mixed_mild"]},
     "min_nontrivial": {"quick": 20, "thorough": 300},
@@ -145,6 +145,20 @@ def run(ctx):
         ctx.covered("model", model)
         ctx.covered("weights", wkind)
         ctx.covered("phsp_weights", phsp_kind)
+        # the un-batched building block BaseModel.nll(data, mcdata) on RAW event weights (its own alpha factor is then not 1)
+        if model in ("default", "extended") and wkind != "ones":
+            try:
+                base = fcn.model.model
+                with lik.quiet():
+                    # (as Model.nll does, both samples carry an explicit float64 weight column)
+                    v_base = float(base.nll(dict(data, weight=tf.convert_to_tensor(np.asarray(data["weight"]), dtype="float64")),
+                                            dict(phsp, weight=tf.convert_to_tensor(lik.np_w(phsp, nmc), dtype="float64"))))
+                ref_b, min_b = lik.reference_nll(model, amp, data, phsp, None, w_bkg, None, None, params)
+                if np.isfinite(ref_b) and min_b > 1e-5:
+                    ctx.check("BaseModel.nll on raw weights == formula", rel(v_base, ref_b) <= 1.0, lambda: dict(desc(), lib=v_base, ref=ref_b),
+                              mechanism="BaseModel.nll raw weights (%s)" % model)
+            except Exception as e:
+                ctx.violation("BaseModel.nll on raw weights == formula", ctx.exc_witness(e, **desc()), mechanism="BaseModel.nll raises (%s)" % model)
         # rescaling invariance (non-extended)
         if "extended" not in model and i % 2 == 0:
             s = float(rng.uniform(0.3, 3.0))
